@@ -69,6 +69,11 @@ def templates():
               lambda n: C("t", [I(n)]), lambda n: n))
     T.append(("first_of_or", False, [FN("t", [P("n", "int")], "bool", C("if", [stop, B(False), OP("or", C("t", [dec]), B(False))]))],
               lambda n: C("t", [I(n)]), lambda n: False))
+    # the guarded (first) argument of if_error is inspected afterwards: never a tail position, in either arity
+    T.append(("guarded_if_error3", False, [FN("t", [P("n", "int")], "int", C("if", [stop, I(0), C("if_error", [C("t", [dec]), S_("zzz"), I(-1)])]))],
+              lambda n: C("t", [I(n)]), lambda n: 0))
+    T.append(("guarded_if_error2", False, [FN("t", [P("n", "int")], "int", C("if", [stop, I(0), C("if_error", [C("t", [dec]), I(-1)])]))],
+              lambda n: C("t", [I(n)]), lambda n: 0))
     lam = {"k": "lam", "ps": [P("k", "int")], "decls": [], "rty": "int", "ret": C("t", [V("k"), inc])}
     T.append(("in_lambda", False, [FN("t", ps2, "int", C("if", [stop, V("acc"), {"k": "callv", "fe": lam, "args": [dec]}]))],
               lambda n: C("t", [I(n), I(0)]), lambda n: n))
